@@ -275,6 +275,7 @@ func addLineText(p *lineParser) {
 	}
 	lastLineBlank := isBlank && !(p.ContainerKind() == BlockQuoteKind ||
 		p.ContainerKind() == FencedCodeBlockKind ||
+		p.ContainerKind() == HTMLBlockKind ||
 		(p.ContainerKind() == ListItemKind && p.container.ChildCount() == 1 && p.container.Span().Start >= p.lineStart))
 	// Propagate lastLineBlank up through parents:
 	for c := p.container; c != nil; c = findParent(&p.root, c) {
